@@ -56,6 +56,11 @@ func (s *scanner) Scan(value bytes.Bytes) (*Number, error) {
 		return nil, err
 	}
 
+	if n.isZero() {
+		// There is no negative zero.
+		n.neg = false
+	}
+
 	return &n, nil
 }
 
